@@ -24,7 +24,7 @@ def now():
 # scripted peer (the server side), generic over socket-like objects (recv/sendall/close)
 # --------------------------------------------------------------------------------------
 class Peer(threading.Thread):
-    """hello: ok | silent | garbage | garbage_eof | eof
+    """hello: ok | silent | garbage | garbage_eof | eof | badbody | nocaptext
     rpc: hold | reply                (requests other than close-session)
     close_rpc: ok_close | ok_open | silent | error | eof
     """
@@ -85,6 +85,10 @@ class Peer(threading.Thread):
     def _run(self):
         if self.hello == 'ok': self._send(HELLO_OK)
         elif self.hello in ('garbage', 'garbage_eof'): self._send(b'\x00\xff<<not xml>>' + DELIM)
+        elif self.hello == 'badbody':       # a hello whose root start tag is fine and whose body is not well-formed; the peer stays open
+            self._send(b'<hello xmlns="urn:ietf:params:xml:ns:netconf:base:1.0"><capabilities><capability>urn:ietf:params:netconf:base:1.0</capabilit></capabilities><session-id>4</session-id></hello>' + DELIM)
+        elif self.hello == 'nocaptext':     # a capability element without text; the peer stays open
+            self._send(b'<hello xmlns="urn:ietf:params:xml:ns:netconf:base:1.0"><capabilities><capability/></capabilities><session-id>4</session-id></hello>' + DELIM)
         if self.hello in ('eof', 'garbage_eof'):
             self._close_own(); return
         buf = b''
